@@ -69,6 +69,63 @@ def ptr_stride(f, p):
     return outs
 
 
+def round_down(t):
+    """(n term, S) when `t` rounds n down to a multiple of the constant S:
+    n - n % S  |  n / S * S  |  n & !(S - 1)  |  n - (n & (S - 1))"""
+    m = strip(t)
+    if m[0] == 'field' and strip(m[1])[0] == 'binop':
+        m = strip(m[1])
+    if m[0] != 'binop':
+        return None
+    op = m[1]
+    a, b = strip(m[2]), strip(m[3])
+
+    def unfield(x):
+        x = strip(x)
+        return strip(x[1]) if x[0] == 'field' and strip(x[1])[0] == 'binop' else x
+    a, b = unfield(a), unfield(b)
+    if op.startswith('Sub') and b[0] == 'binop' and b[1] == 'Rem' and strip_all(b[2]) == strip_all(a):
+        S = const_eval(b[3])
+        return (a, S) if S else None
+    if op.startswith('Sub') and b[0] == 'binop' and b[1] == 'BitAnd' and strip_all(b[2]) == strip_all(a):
+        k = const_eval(b[3])
+        if k is not None and (k + 1) & k == 0 and k > 0:
+            return (a, k + 1)
+    if op.startswith('Mul') and a[0] == 'binop' and a[1] == 'Div':
+        S = const_eval(b)
+        if S and const_eval(a[3]) == S:
+            return (strip(a[2]), S)
+    if op == 'BitAnd':
+        k = const_eval(b)
+        if k is None and b[0] == 'unop' and b[1] == 'Not':
+            low = const_eval(b[2])
+            if low is not None:
+                k = ~low & 0xFFFFFFFFFFFFFFFF
+        if k is not None:
+            low = ~k & 0xFFFFFFFFFFFFFFFF
+            if low > 0 and (low + 1) & low == 0:
+                return (a, low + 1)
+    return None
+
+
+def counter_step(t):
+    """constant k when the phi term t is a counter advanced by `+ k` around a loop (with its start value), else None"""
+    i = strip(t)
+    step = None
+    start = None
+    if i[0] != 'phi':
+        return None
+    for alt in i[2]:
+        a = strip(alt)
+        if a[0] == 'field' and strip(a[1])[0] == 'binop' and strip(a[1])[1].startswith('Add'):
+            step = const_eval(strip(a[1])[3])
+        elif a[0] == 'binop' and a[1].startswith('Add'):
+            step = const_eval(a[3])
+        elif const_eval(a) is not None:
+            start = const_eval(a)
+    return (start, step) if step else None
+
+
 def analyse_kernel(ctx, f, rule='R-SIMD'):
     F = ctx.F
     name = f.path
@@ -104,34 +161,17 @@ def analyse_kernel(ctx, f, rule='R-SIMD'):
             e = paths.edge_cond(f, b, s)
             if e and e[0] == 'bool' and e[2]:
                 c0 = strip(e[1])
-                if c0[0] == 'binop' and c0[1] == 'Lt' and any(x[0] == 'binop' and x[1] == 'Rem' for x in walk(c0[3])):
+                if c0[0] == 'binop' and c0[1] == 'Lt' and round_down(c0[3]) is not None:
                     cond = c0
     istep = None
     mod = None
+    bound_ok = False
     if cond is not None:
-        i = strip(cond[2])
-        if i[0] == 'phi':
-            for alt in i[2]:
-                v = None
-                a = strip(alt)
-                if a[0] == 'field' and a[1][0] == 'binop' and a[1][1].startswith('Add'):
-                    v = const_eval(a[1][3])
-                elif a[0] == 'binop' and a[1].startswith('Add'):
-                    v = const_eval(a[3])
-                if v:
-                    istep = v
-        for x in walk(cond[3]):
-            if x[0] == 'binop' and x[1] == 'Rem':
-                mod = const_eval(x[3])
-                lenarg = strip(x[2])
-        bound_ok = False
-        m = strip(cond[3])
-        mm = m[1] if m[0] == 'field' else m
-        if mm[0] == 'binop' and mm[1].startswith('Sub'):
-            a, b = strip(mm[2]), strip(mm[3])
-            bound_ok = a[0] == 'call' and a[1].endswith('::len') and b[0] == 'binop' and b[1] == 'Rem' and strip_all(b[2]) == strip_all(a)
-    else:
-        bound_ok = False
+        cs = counter_step(cond[2])
+        if cs and cs[0] == 0:
+            istep = cs[1]
+        lenarg, mod = round_down(cond[3])
+        bound_ok = lenarg[0] == 'call' and lenarg[1].endswith('::len')
     ctx.check(strides == {S} and istep == S and mod == S and bound_ok, rule, name + '/stride', f.loc(),
               'pointer stride = counter step = modulus of `n - n %% S` = %s' % S,
               '`%s`: pointer stride %s, counter step %s, rounding modulus %s must all equal lanes x accumulators = %s (bound n - n %% S: %s)' % (name, sorted(strides), istep, mod, S, bound_ok))
@@ -202,13 +242,29 @@ def analyse_kernel(ctx, f, rule='R-SIMD'):
             nx = [x for x in walk(p[2][1]) if x[0] == 'call' and x[1].endswith('Iterator::next')]
             idxs |= {x[3] for x in nx}
             rng = [x for x in walk(p[2][1]) if x[0] == 'agg' and x[1].endswith('ops::Range')]
+
+            def is_tail_len(t):
+                # n - m with m the rounded-down length
+                end = strip(t)
+                ee = strip(end[1]) if end[0] == 'field' and strip(end[1])[0] == 'binop' else end
+                return ee[0] == 'binop' and ee[1].startswith('Sub') and strip(ee[2])[0] == 'call' and strip(ee[2])[1].endswith('::len') and round_down(ee[3]) is not None \
+                    and round_down(ee[3])[1] == S
             if rng:
                 d = dict(rng[0][3])
-                end = strip(d['end'])
-                ee = end[1] if end[0] == 'field' else end
-                okr = okr and const_eval(d['start']) == 0 and ee[0] == 'binop' and ee[1].startswith('Sub') and strip(ee[2])[0] == 'call' and strip(ee[2])[1].endswith('::len')
+                okr = okr and const_eval(d['start']) == 0 and is_tail_len(d['end'])
             else:
-                okr = False
+                # `let mut i = 0; while i < n - m { .. i += 1 }`
+                cs = counter_step(p[2][1])
+                bounded = False
+                for s0, x0, e in paths.controlling_conds(f, c.bb):
+                    if e[0] == 'bool' and e[2] and paths.edge_dominates(f, s0, x0, c.bb):
+                        cc = strip(e[1])
+                        if cc[0] == 'binop' and cc[1] == 'Lt' and strip_all(cc[2]) == strip_all(p[2][1]) and is_tail_len(cc[3]):
+                            bounded = True
+                if cs == (0, 1) and bounded:
+                    idxs.add(('counter', strip(p[2][1])[1]))
+                else:
+                    okr = False
         else:
             okr = False
     okr = okr and bases == {p1, p2} and len(idxs) == 1
